@@ -23,7 +23,7 @@ at every processed key (registered path or its plural base key) replaced by its 
 resolution* in the original world `w` (`ncPV`: no cycle guard, no memoisation, any sufficient fuel),
 all other leaves unchanged, and groups of subkeys still groups.
 -/
-theorem C06_resolveAll_memo (orc : Oracle) (dflt : Str) (fuel : Nat) (ps : List (Str × KeyPath))
+theorem C06_resolveAll_memo (orc : Oracle) (dflt : Fallbacks) (fuel : Nat) (ps : List (Str × KeyPath))
     (w w' : World) (hwf : WorldWF w) (h : resolveAll orc dflt fuel ps w = .ok w') :
     Memo orc w dflt (Proc ps) w' :=
   Memo.congr orc w dflt (memo_all orc w dflt ps (fun _ => False) w w' hwf (Memo.init orc w dflt) h)
@@ -35,7 +35,7 @@ same elements (any order, any multiplicity) give worlds in which *every* lookup 
 thing — or, at paths that do not hold a leaf, something that is not a leaf in both (a group of
 subkeys, nothing, or the same error).  Leaves are equal syntactically, not only in what they render.
 -/
-theorem C06_order_independent (orc : Oracle) (dflt : Str) (fuel₁ fuel₂ : Nat)
+theorem C06_order_independent (orc : Oracle) (dflt : Fallbacks) (fuel₁ fuel₂ : Nat)
     (ps₁ ps₂ : List (Str × KeyPath)) (w w₁ w₂ : World) (hwf : WorldWF w)
     (hsame : ∀ x, x ∈ ps₁ ↔ x ∈ ps₂)
     (h₁ : resolveAll orc dflt fuel₁ ps₁ w = .ok w₁) (h₂ : resolveAll orc dflt fuel₂ ps₂ w = .ok w₂)
@@ -47,11 +47,11 @@ theorem C06_order_independent (orc : Oracle) (dflt : Str) (fuel₁ fuel₂ : Nat
   have hM2 := C06_resolveAll_memo orc dflt fuel₂ ps₂ w w₂ hwf h₂
   have hP : ∀ K, Proc ps₁ K ↔ Proc ps₂ K := fun K =>
     ⟨fun ⟨x, hx, hK⟩ => ⟨x, (hsame x).mp hx, hK⟩, fun ⟨x, hx, hK⟩ => ⟨x, (hsame x).mpr hx, hK⟩⟩
-  rcases hM1 top T with ⟨hu, hu1⟩ | ⟨v₀, y₁, ha, hb1, hl0, hl1, hc1⟩
-  · rcases hM2 top T with ⟨_, hu2⟩ | ⟨v₀, y₂, ha, _, hl0, _, _⟩
+  rcases hM1 top T with ⟨_, hu, hu1⟩ | ⟨v₀, y₁, ha, hb1, hl0, hl1, hc1⟩
+  · rcases hM2 top T with ⟨_, _, hu2⟩ | ⟨v₀, y₂, ha, _, hl0, _, _⟩
     · exact .inr ⟨hu1, hu2⟩
     · have := hu v₀ ha; rw [hl0] at this; cases this
-  · rcases hM2 top T with ⟨hu, _⟩ | ⟨v₀', y₂, ha', hb2, _, _, hc2⟩
+  · rcases hM2 top T with ⟨_, hu, _⟩ | ⟨v₀', y₂, ha', hb2, _, _, hc2⟩
     · have := hu v₀ ha; rw [hl0] at this; cases this
     · rw [ha] at ha'
       simp only [Res.ok.injEq, Option.some.injEq] at ha'
@@ -65,7 +65,7 @@ theorem C06_order_independent (orc : Oracle) (dflt : Str) (fuel₁ fuel₂ : Nat
       · rw [Ev.det e1 e2]
 
 /-- for two permutations of the registered paths -/
-theorem C06_order_independent_perm (orc : Oracle) (dflt : Str) (fuel : Nat)
+theorem C06_order_independent_perm (orc : Oracle) (dflt : Fallbacks) (fuel : Nat)
     (ps₁ ps₂ : List (Str × KeyPath)) (w w₁ w₂ : World) (hwf : WorldWF w) (hperm : ps₁.Perm ps₂)
     (h₁ : resolveAll orc dflt fuel ps₁ w = .ok w₁) (h₂ : resolveAll orc dflt fuel ps₂ w = .ok w₂)
     (top : Str) (T : KeyPath) :
@@ -75,7 +75,7 @@ theorem C06_order_independent_perm (orc : Oracle) (dflt : Str) (fuel : Nat)
   C06_order_independent orc dflt fuel fuel ps₁ ps₂ w w₁ w₂ hwf (fun _ => hperm.mem_iff) h₁ h₂ top T
 
 /-- a leaf stored by one order is the leaf stored by the other -/
-theorem C06_order_independent_leaf (orc : Oracle) (dflt : Str) (fuel₁ fuel₂ : Nat)
+theorem C06_order_independent_leaf (orc : Oracle) (dflt : Fallbacks) (fuel₁ fuel₂ : Nat)
     (ps₁ ps₂ : List (Str × KeyPath)) (w w₁ w₂ : World) (hwf : WorldWF w)
     (hsame : ∀ x, x ∈ ps₁ ↔ x ∈ ps₂)
     (h₁ : resolveAll orc dflt fuel₁ ps₁ w = .ok w₁) (h₂ : resolveAll orc dflt fuel₂ ps₂ w = .ok w₂)
@@ -87,7 +87,7 @@ theorem C06_order_independent_leaf (orc : Oracle) (dflt : Str) (fuel₁ fuel₂ 
 
 /-- **The statement left open in `Theorems/C06.lean`, for well-formed worlds**: both worlds render the
     same at every path, in every environment (a group of subkeys renders as nothing). -/
-theorem C06_order_independent_eval (orc : Oracle) (dflt : Str) (fuel : Nat) (w w₁ w₂ : World)
+theorem C06_order_independent_eval (orc : Oracle) (dflt : Fallbacks) (fuel : Nat) (w w₁ w₂ : World)
     (paths paths' : List (Str × KeyPath)) (hwf : WorldWF w) (hperm : paths.Perm paths')
     (h₁ : resolveAll orc dflt fuel paths w = .ok w₁) (h₂ : resolveAll orc dflt fuel paths' w = .ok w₂)
     (top : Str) (p : KeyPath) (v₁ v₂ : PV)
@@ -104,7 +104,7 @@ theorem C06_order_independent_eval (orc : Oracle) (dflt : Str) (fuel : Nat) (w w
 
 /-- `C06_order_independent_full_statement` of `Theorems/C06.lean` with the hypothesis `WorldWF w` added -/
 theorem C06_order_independent_full_of_wf :
-    ∀ (orc : Oracle) (dflt : Str) (fuel : Nat) (w w₁ w₂ : World) (paths paths' : List (Str × KeyPath)),
+    ∀ (orc : Oracle) (dflt : Fallbacks) (fuel : Nat) (w w₁ w₂ : World) (paths paths' : List (Str × KeyPath)),
       WorldWF w → paths.Perm paths' →
       resolveAll orc dflt fuel paths w = .ok w₁ → resolveAll orc dflt fuel paths' w = .ok w₂ →
       ∀ (top : Str) (p : KeyPath) (v₁ v₂ : PV),
@@ -115,7 +115,7 @@ theorem C06_order_independent_full_of_wf :
 
 /-- processing registered paths more than once changes no leaf (a consequence: the lists only need the
     same *elements*) -/
-theorem C06_resolveAll_repeat (orc : Oracle) (dflt : Str) (fuel : Nat) (ps : List (Str × KeyPath))
+theorem C06_resolveAll_repeat (orc : Oracle) (dflt : Fallbacks) (fuel : Nat) (ps : List (Str × KeyPath))
     (w w₁ w₂ : World) (hwf : WorldWF w)
     (h₁ : resolveAll orc dflt fuel ps w = .ok w₁) (h₂ : resolveAll orc dflt fuel (ps ++ ps) w = .ok w₂)
     (top : Str) (T : KeyPath) (v : PV) (hv : w₁.getValueAt top T = .ok (some v)) (hl : isGroup v = false) :
@@ -136,7 +136,7 @@ theorem mkWorld_set (keys : List (Str × PV)) (k : String) (x : PV) :
       mkWorld (keys.map (fun kv => if kv.1 == k.toList then (kv.1, x) else (kv.1, kv.2))) := by
   simp [mkWorld, World.setValueAt, kp, World.locSet, Loc.setKeys, Loc.name, Loc.keys, Loc.top, Loc.strings, Loc.count]
 
-theorem resolveAt_ok_eq {orc : Oracle} {dflt : Str} {fuel : Nat} {loc : Str} {p : KeyPath} {m : World} {v x : PV}
+theorem resolveAt_ok_eq {orc : Oracle} {dflt : Fallbacks} {fuel : Nat} {loc : Str} {p : KeyPath} {m : World} {v x : PV}
     (hget : m.getValueAt loc p = .ok (some v))
     (hr : resolvePV orc m dflt fuel [] (loc, p) loc v = .ok x) :
     resolveAt orc dflt fuel loc p m = .ok (m.setValueAt loc p x, true) := by
@@ -154,11 +154,11 @@ def keysAB : List (Str × PV) := [("a".toList, va'), ("b".toList, vb'), ("c".toL
 /-- `b` resolves to `vb'` wherever `c` is stored unresolved (in any of these worlds), on its own or below `a` -/
 theorem resolve_b (keys : List (Str × PV)) (hc : AMap.get? "c".toList keys = some vc) (V : List KeyId)
     (hV : V = [] ∨ V = [(en, kp "a")]) :
-    resolvePV orc (mkWorld keys) en 8 V (en, kp "b") en vb = .ok vb' := by
-  have hn : resolveNode orc (mkWorld keys) en 6 V (en, kp "b") en (kp "c")
-      [("y".toList, .var "x".toList .none)] true = .ok (.fk (.set (.bloc [s "Hi ", .var "x".toList .none]))) :=
+    resolvePV orc (mkWorld keys) fbEn 8 V (en, kp "b") en vb = .ok vb' := by
+  have hn : resolveNode orc (mkWorld keys) fbEn 6 V (en, kp "b") en (kp "c")
+      [("y".toList, .var "x".toList .none)] = .ok (.fk (.set (.bloc [s "Hi ", .var "x".toList .none]))) :=
     resolveNode_ok_eq (value := vc) (value' := vc) (args' := [("y".toList, .var "x".toList .none)])
-      orc _ en 5 _ _ en (kp "c") _ true
+      orc _ fbEn 5 _ _ en (kp "c") _
       ((mkWorld_get keys "c").trans (by rw [hc])) (by simp [vc])
       (by rcases hV with rfl | rfl <;> decide)
       (resolvePV_id _ _ _ _ _ _ _ _ (by decide) (by decide))
@@ -168,49 +168,49 @@ theorem resolve_b (keys : List (Str × PV)) (hc : AMap.get? "c".toList keys = so
 /-- `a` resolves to `va'` whether `b` is stored unresolved … -/
 theorem resolve_a_fresh (keys : List (Str × PV)) (hb : AMap.get? "b".toList keys = some vb)
     (hc : AMap.get? "c".toList keys = some vc) :
-    resolvePV orc (mkWorld keys) en 10 [] (en, kp "a") en va = .ok va' := by
+    resolvePV orc (mkWorld keys) fbEn 10 [] (en, kp "a") en va = .ok va' := by
   rw [va, resolvePV_notSet]
   exact resolveNode_ok_eq (value := vb) (args' := [("x".toList, s "Bob")])
-      orc _ en 8 _ _ en (kp "b") _ true
+      orc _ fbEn 8 _ _ en (kp "b") _
       ((mkWorld_get keys "b").trans (by rw [hb])) (by simp [vb]) (by decide)
       (resolve_b keys hc _ (.inr rfl))
       (resolveArgs_id _ _ _ _ _ _ _ _ (by decide) (by decide)) rfl
 
 /-- … or already resolved (memoised) -/
-theorem resolve_a_memo : resolvePV orc (mkWorld keysB) en 10 [] (en, kp "a") en va = .ok va' := by
+theorem resolve_a_memo : resolvePV orc (mkWorld keysB) fbEn 10 [] (en, kp "a") en va = .ok va' := by
   rw [va, resolvePV_notSet]
   exact resolveNode_ok_eq (value := vb') (value' := vb') (args' := [("x".toList, s "Bob")])
-      orc _ en 8 _ _ en (kp "b") _ true
+      orc _ fbEn 8 _ _ en (kp "b") _
       ((mkWorld_get keysB "b").trans rfl) (by simp [vb']) (by decide)
       (resolvePV_id _ _ _ _ _ _ _ _ (by decide) (by decide))
       (resolveArgs_id _ _ _ _ _ _ _ _ (by decide) (by decide)) rfl
 
-theorem run_ab : resolveAll orc en 10 [(en, kp "a"), (en, kp "b")] w3 = .ok (mkWorld keysAB) := by
+theorem run_ab : resolveAll orc fbEn 10 [(en, kp "a"), (en, kp "b")] w3 = .ok (mkWorld keysAB) := by
   have m1 : mergedPath (kp "a") = none := by decide
   have m2 : mergedPath (kp "b") = none := by decide
-  have s1 : resolveAt orc en 10 en (kp "a") w3 = .ok (mkWorld keysA, true) := by
+  have s1 : resolveAt orc fbEn 10 en (kp "a") w3 = .ok (mkWorld keysA, true) := by
     rw [w3, resolveAt_ok_eq ((mkWorld_get keys3 "a").trans rfl) (resolve_a_fresh keys3 rfl rfl), mkWorld_set]; rfl
-  have s2 : resolveAt orc en 10 en (kp "b") (mkWorld keysA) = .ok (mkWorld keysAB, true) := by
+  have s2 : resolveAt orc fbEn 10 en (kp "b") (mkWorld keysA) = .ok (mkWorld keysAB, true) := by
     rw [resolveAt_ok_eq ((mkWorld_get keysA "b").trans rfl)
-      (C06_resolve_fuel_monotone_ok orc _ en [] _ en vb vb' 8 10 (by decide) (resolve_b keysA rfl _ (.inl rfl))),
+      (C06_resolve_fuel_monotone_ok orc _ fbEn [] _ en vb vb' 8 10 (by decide) (resolve_b keysA rfl _ (.inl rfl))),
       mkWorld_set]; rfl
   simp only [resolveAll, s1, s2, m1, m2, Bool.or_false, if_true]
 
-theorem run_ba : resolveAll orc en 10 [(en, kp "b"), (en, kp "a")] w3 = .ok (mkWorld keysAB) := by
+theorem run_ba : resolveAll orc fbEn 10 [(en, kp "b"), (en, kp "a")] w3 = .ok (mkWorld keysAB) := by
   have m1 : mergedPath (kp "a") = none := by decide
   have m2 : mergedPath (kp "b") = none := by decide
-  have s1 : resolveAt orc en 10 en (kp "b") w3 = .ok (mkWorld keysB, true) := by
+  have s1 : resolveAt orc fbEn 10 en (kp "b") w3 = .ok (mkWorld keysB, true) := by
     rw [w3, resolveAt_ok_eq ((mkWorld_get keys3 "b").trans rfl)
-      (C06_resolve_fuel_monotone_ok orc _ en [] _ en vb vb' 8 10 (by decide) (resolve_b keys3 rfl _ (.inl rfl))),
+      (C06_resolve_fuel_monotone_ok orc _ fbEn [] _ en vb vb' 8 10 (by decide) (resolve_b keys3 rfl _ (.inl rfl))),
       mkWorld_set]; rfl
-  have s2 : resolveAt orc en 10 en (kp "a") (mkWorld keysB) = .ok (mkWorld keysAB, true) := by
+  have s2 : resolveAt orc fbEn 10 en (kp "a") (mkWorld keysB) = .ok (mkWorld keysAB, true) := by
     rw [resolveAt_ok_eq ((mkWorld_get keysB "a").trans rfl) resolve_a_memo, mkWorld_set]; rfl
   simp only [resolveAll, s1, s2, m1, m2, Bool.or_false, if_true]
 
 /-- the hypotheses of `C06_order_independent_perm` hold here, with both runs successful -/
 example : WorldWF w3 ∧ [(en, kp "a"), (en, kp "b")].Perm [(en, kp "b"), (en, kp "a")] ∧
-    resolveAll orc en 10 [(en, kp "a"), (en, kp "b")] w3 = .ok (mkWorld keysAB) ∧
-    resolveAll orc en 10 [(en, kp "b"), (en, kp "a")] w3 = .ok (mkWorld keysAB) :=
+    resolveAll orc fbEn 10 [(en, kp "a"), (en, kp "b")] w3 = .ok (mkWorld keysAB) ∧
+    resolveAll orc fbEn 10 [(en, kp "b"), (en, kp "a")] w3 = .ok (mkWorld keysAB) :=
   ⟨mkWorld_wf _, List.Perm.swap _ _ _, run_ab, run_ba⟩
 end Ex
 
